@@ -22,7 +22,7 @@ def run(tier, seed, replay=None):
     from splipy import state
     rng = random.Random(seed)
     tol = C.fr(state.knot_tolerance)
-    nobj = 220 if tier == 'quick' else 4000
+    nobj = 500 if tier == 'quick' else 4000
     cases = []
     dist = {'op': {}, 'pardim': {}, 'order': {}, 'continuity': {}, 'nfun': {}, 'errors': {}}
     if replay:
